@@ -358,9 +358,31 @@ def op_cls(name: str):
     return OperatorRepr
 
 
+AMP_MODES = {"plain": 0, "numpy-scalars": 0, "caller-edits-its-dict-afterwards": 0}
+
+
 def build_state(s: dict):
+    """The way the amplitudes are handed over varies with the spec (deterministically, so that a replay does the same):
+    plain Python numbers; numpy scalars (complex64 / float32, accepted as SupportsComplex by the QuTiP state); or a
+    dict the caller goes on to edit after the state was made (a QuTiP state keeps its own converted amplitudes)."""
+    import zlib
+
     eig = tuple(s["eig"]) if s.get("eig_as", "tuple") == "tuple" else list(s["eig"])
-    return state_cls(s["type"]).from_state_amplitudes(eigenstates=eig, amplitudes={k: cx(v) for k, v in s["amps"].items()})
+    amps = {k: cx(v) for k, v in s["amps"].items()}
+    mode = "plain"
+    if s["type"] == "QutipState":
+        mode = ["plain", "numpy-scalars", "caller-edits-its-dict-afterwards", "plain"][zlib.crc32(repr(sorted(s["amps"])).encode()) % 4]
+    if mode == "numpy-scalars" and not all(float(np.float32(x)) == x for v in amps.values() for x in (complex(v).real, complex(v).imag)):
+        mode = "plain"  # (single precision would change the state: only values it represents exactly are handed over so)
+    AMP_MODES[mode] += 1
+    if mode == "numpy-scalars":
+        amps = {k: (np.complex64(v) if isinstance(v, complex) else np.float32(v)) for k, v in amps.items()}
+    st = state_cls(s["type"]).from_state_amplitudes(eigenstates=eig, amplitudes=amps)
+    if mode == "caller-edits-its-dict-afterwards":
+        for k in list(amps):
+            amps[k] = amps[k] * 2 + 1
+        amps["not a basis state"] = 0.0
+    return st
 
 
 def build_operations(ops: list, coll: str = "list"):
